@@ -51,6 +51,10 @@ def render_lines(L):
 BAD_TOKENS = [("out_of_range", "999999999"), ("beyond_points", "5000"), ("negative", "-5"), ("huge", "99999999999999999999"), ("overflow", "1e999"), ("non_numeric", "abc"), ("zero", "0"), ("float_for_int", "2.5")]
 
 
+WRAP_VALUES = [2 ** 31 - 1, 2 ** 31, 2 ** 32 - 1, 2 ** 32, 2 ** 32 + 1, 2 ** 30, 2 ** 30 + 1, (2 ** 32) // 3, (2 ** 32) // 3 + 1, (2 ** 32) // 3 + 2, (2 ** 32) // 3 + 5,
+               2 * (2 ** 32) // 3 + 1, 2 * (2 ** 32) // 3 + 2, (2 ** 31) // 3 + 1, 2 ** 63 - 1, 2 ** 63, 2 ** 64 - 1, 2 ** 64]
+
+
 def mesh_faults(rng, L, limit):
     """(kind, text) single-token faults at every token position, structural faults, truncations"""
     pos = [(i, j) for i, l in enumerate(L) for j in range(len(l))]
@@ -71,6 +75,14 @@ def mesh_faults(rng, L, limit):
                 M[i][j] = dict(BAD_TOKENS)[kind]
             numeric = L[i][j].replace(".", "").replace("e-", "").replace("-", "").isdigit() and not (L[i][0] in ("POINTS", "CELLS", "CELL_TYPES", "CELL_DATA", "FIELD", "cell_type_id") and j == 0)
             out.append(("token_" + kind, render_lines(M), (i, j, numeric)))
+    # integers at which 32/64-bit index arithmetic (k*id + c, k = 1..4) wraps: a guard computed in a narrower type than the
+    # access it protects lets exactly these through
+    ints = [(i, j) for (i, j) in pos if L[i][j].isdigit() and not L[i][0][0].isalpha()] + [(i, j) for (i, j) in pos if j > 0 and L[i][j].isdigit() and L[i][0] in ("POINTS", "CELLS", "CELL_TYPES", "CELL_DATA")]
+    rng2 = random.Random(len(L) * 7919 + len(pos))
+    for (i, j) in rng2.sample(ints, min(10, len(ints))):
+        for v in WRAP_VALUES:
+            M = copy.deepcopy(L); M[i][j] = str(v)
+            out.append(("wrap_value", render_lines(M), (i, j, True)))
     # sections removed / reordered
     heads = [i for i, l in enumerate(L) if l and l[0] in ("POINTS", "CELLS", "CELL_TYPES", "CELL_DATA", "cell_type_id")]
     bounds = heads + [len(L)]
